@@ -140,7 +140,7 @@ def eval_traces(items, per=60):
                       'Definition enc (r : option (nat * bool)) : nat := match r with None => 0 | Some (i, b) => '
                       '1 + 2 * i + (if b then 1 else 0) end.\n'
                       'Eval vm_compute in (map enc results).\n')
-    outs = common.coq_eval_many(bodies)
+    outs = common.coq_eval_many(bodies, par=6)
     verdicts = []
     for bi, (rc, out) in enumerate(outs):
         n = len(items[bi * per:(bi + 1) * per])
@@ -157,3 +157,243 @@ def eval_traces(items, per=60):
                 verdicts.append('step %d: %s' % (idx, 'observation differs from the model' if obs_differs
                                                  else 'the model does not offer this step'))
     return verdicts
+
+
+# --------------------------------------------------------------------------
+# generators
+# --------------------------------------------------------------------------
+PAR = 6            # python / coqc workers of this builder (box is shared)
+
+
+def _plans(r, n, h, rounds):
+    return [[r.randrange(h) for _ in range(r.randrange(1, rounds + 1))] for _ in range(n)]
+
+
+def random_configs(r, count):
+    """(cfg, seeds) pairs: N clients over H keys with limit M; faults = cancellations, connection errors, remote closes."""
+    out = []
+    for i in range(count):
+        t = r.randrange(10)
+        if t < 4:       # heavy contention on one key
+            n, h, m = r.randrange(2, 6), 1, r.randrange(1, 3)
+        elif t < 7:
+            n, h, m = r.randrange(2, 7), 2, r.randrange(1, 4)
+        elif t < 9:
+            n, h, m = r.randrange(3, 9), r.randrange(1, 4), r.randrange(1, 4)
+        else:           # max_count small: release() cleans with force
+            n, h, m = r.randrange(2, 6), r.randrange(1, 3), r.randrange(1, 3)
+        cfg = {'n': n, 'h': h, 'm': m, 'plan': _plans(r, n, h, 3), 'faults': r.choice([0, 1, 2, 3, 5]),
+               'cleans': r.choice([0, 0, 1, 2]), 'fault_weight': r.choice([0.15, 0.3, 0.6]),
+               'finish_weight': r.choice([0.3, 0.6, 1.0]), 'connok': r.random() < 0.7}
+        if t == 9:
+            cfg['max_count'] = r.randrange(0, 3)
+        if r.random() < 0.4:
+            cfg['fault_kinds'] = r.choice([['cancel'], ['cancel', 'fail'], ['close', 'cancel']])
+        out.append((cfg, [r.randrange(1 << 30) for _ in range(4)]))
+    return out
+
+
+def explore_configs(thorough):
+    base = [
+        # every schedule, one fault of any kind at any point
+        {'n': 2, 'h': 1, 'm': 1, 'plan': [[0], [0]], 'faults': 1, 'cleans': 0},
+        {'n': 3, 'h': 1, 'm': 1, 'plan': [[0], [0], [0]], 'faults': 1, 'cleans': 0, 'connok': False, 'fault_kinds': ['cancel']},
+        {'n': 2, 'h': 1, 'm': 1, 'plan': [[0, 0], [0]], 'faults': 1, 'cleans': 1, 'connok': False},
+    ]
+    if thorough:
+        base += [
+            {'n': 3, 'h': 1, 'm': 2, 'plan': [[0], [0], [0]], 'faults': 1, 'cleans': 0, 'connok': False},
+            {'n': 3, 'h': 2, 'm': 1, 'plan': [[0], [0], [1]], 'faults': 1, 'cleans': 1, 'connok': False},
+            {'n': 3, 'h': 1, 'm': 1, 'plan': [[0], [0], [0]], 'faults': 2, 'cleans': 0, 'connok': False, 'fault_kinds': ['cancel']},
+            {'n': 2, 'h': 2, 'm': 2, 'plan': [[0, 1], [1, 0]], 'faults': 1, 'cleans': 1},
+            {'n': 3, 'h': 2, 'm': 2, 'plan': [[0], [0], [0, 1]], 'faults': 1, 'cleans': 0, 'connok': False},
+        ]
+    return base
+
+
+def _impl_random(pairs, max_len):
+    payloads = [{'mode': 'random', 'cfg': cfg, 'seeds': seeds, 'max_len': max_len} for cfg, seeds in pairs]
+    # group several configurations per child process
+    groups = [payloads[i::PAR] for i in range(PAR)]
+    outs = common.run_impl_sharded('c12_impl.py', [{'mode': 'multi', 'jobs': g} for g in groups if g], par=PAR)
+    items = []
+    for g, o in zip([g for g in groups if g], outs):
+        for pl, res in zip(g, o['results']):
+            for run in res['results']:
+                items.append((pl['cfg'], run))
+    return items
+
+
+def _impl_explore(cfgs, max_states):
+    outs = common.run_impl_sharded('c12_impl.py', [{'mode': 'explore', 'cfg': c, 'limits': {'max_states': max_states}}
+                                                   for c in cfgs], par=PAR)
+    return outs
+
+
+def _impl_runs(jobs):
+    """jobs: list of (cfg, schedule) -> list of (cfg, result)"""
+    chunks = [jobs[i::PAR] for i in range(PAR)]
+    chunks = [c for c in chunks if c]
+    outs = common.run_impl_sharded('c12_impl.py', [{'mode': 'run', 'jobs': [{'cfg': c, 'schedule': s} for c, s in ch]}
+                                                   for ch in chunks], par=PAR)
+    items = []
+    for ch, o in zip(chunks, outs):
+        for (c, s), res in zip(ch, o['results']):
+            res['schedule'] = s
+            items.append((c, res))
+    return items
+
+
+def _viol(cfg, res):
+    out = []
+    seen = set()
+    for idx, why in res.get('violations', []):
+        kind = why.split(':')[0]
+        if kind in seen:
+            continue
+        seen.add(kind)
+        out.append({'why': why, 'case': {'cfg': cfg, 'schedule': res['schedule'][:idx + 1] if idx < len(res['schedule'])
+                                         else res['schedule'], 'epilogue': idx >= len(res['schedule'])}})
+    return out
+
+
+def classify(v):
+    why = v.get('why', '')
+    case = v.get('case', {})
+    kinds = sorted(set(a[0] for a in case.get('schedule', []) if a[0] in ('cancel', 'fail', 'close', 'clean')))
+    return '%s/%s' % (why.split(':')[0].split(' ')[0], '+'.join(kinds) or 'plain')
+
+
+def _features(res):
+    """what happened in a run: used for the input distribution and the non-triviality rule"""
+    f = set()
+    steps = list(res['trace']) + list(res.get('epilogue') or [])
+    prev = res['initial']
+    for a, o in steps:
+        if a[0] == 'cancel':
+            wh = prev['where'][a[1]]
+            f.add('cancel-' + wh)
+        for p in o['pools']:
+            if p is None:
+                continue
+            if 'p' in p['cond']:
+                f.add('parked')
+            if 'n' in p['cond']:
+                f.add('notified-not-run')
+            if 'c' in p['cond']:
+                f.add('cancelled-waiter')
+            if p['locked'] or p['lockq']:
+                f.add('lock-contended')
+        if o['hp_locked'] or o['hp_q']:
+            f.add('lock-contended')
+        if len(o['live_tasks']) > 1:
+            f.add('several-pending-releases')
+        if any(w == 'pool' for w in o['where']) and o['release_set'] and not any(p and p['cond'] for p in o['pools']):
+            f.add('draining')
+        prev = o
+    return f
+
+
+def correspondence(ctx):
+    r = common.rng('c12')
+    thorough = ctx.thorough
+    # ---- stream 1: random schedules
+    pairs = random_configs(r, 260 if not thorough else 5000)
+    items = _impl_random(pairs, 70)
+    # ---- stream 2: every schedule of small configurations (states identified by a fingerprint of the real objects)
+    ecfgs = explore_configs(thorough)
+    eouts = _impl_explore(ecfgs, 4000 if not thorough else 60000)
+    explore_stats = []
+    viol = []
+    jobs = []
+    for cfg, eo in zip(ecfgs, eouts):
+        explore_stats.append({'cfg': {k: cfg[k] for k in ('n', 'h', 'm', 'plan', 'faults', 'cleans')}, 'states': eo['states'],
+                              'transitions': eo['transitions'], 'exhausted': eo['exhausted']})
+        for v in eo['violations']:
+            viol.append({'why': v['why'], 'case': {'cfg': cfg, 'schedule': v['schedule'], 'epilogue': False}})
+        leaves = eo['leaves']
+        if not thorough and len(leaves) > 500:
+            leaves = r.sample(leaves, 500)
+        jobs += [(cfg, p) for p in leaves if p]
+    eitems = _impl_runs(jobs)
+    all_items = items + eitems
+    verdicts = eval_traces(all_items, per=40)
+    dis = []
+    feats = {}
+    kinds = {}
+    nontriv = set()
+    total_steps = 0
+    for (cfg, res), v in zip(all_items, verdicts):
+        if v is not None:
+            dis.append({'case': {'cfg': cfg, 'schedule': res['schedule']}, 'note': v})
+        viol += _viol(cfg, res)
+        fs = _features(res)
+        for f in fs:
+            feats[f] = feats.get(f, 0) + 1
+        for a in res['schedule']:
+            kinds[a[0]] = kinds.get(a[0], 0) + 1
+        total_steps += len(res['trace']) + len(res.get('epilogue') or [])
+        if 'parked' in fs:
+            nontriv.add(json.dumps([cfg['n'], cfg['h'], cfg['m'], res['schedule']]))
+    # de-duplicate violations by class, keep the shortest schedule of each
+    best = {}
+    for v in viol:
+        k = classify(v)
+        if k not in best or len(v['case']['schedule']) < len(best[k]['case']['schedule']):
+            best[k] = v
+    samples = []
+    for cfg, res in (all_items[0], all_items[len(all_items) // 2], all_items[-1]):
+        samples.append({'n': cfg['n'], 'h': cfg['h'], 'm': cfg['m'], 'schedule': res['schedule'][:25]})
+    return {
+        'evaluations': len(all_items),
+        'scheduling_steps_compared': total_steps,
+        'distinct_nontrivial': len(nontriv),
+        'rule': 'one evaluation = one schedule (actions: client starts acquire on a key / one task step / connect ok / session '
+                'ends normally or by error / cancel a client / remote close / spawn clean) run on the REAL ConnectionPool+BaseSession on '
+                'the scripted loop and replayed through Model/Pool.v by vm_compute, observation compared after EVERY action, then the '
+                'quiescence epilogue (everybody finishes, clean()). Streams: random (N<=8,H<=3,M<=3, up to 5 faults) and all schedules '
+                'of small configurations (BFS over fingerprints of the real objects; the property predicate is evaluated on every '
+                'explored transition, a sample of the maximal paths is replayed through the model in the quick tier). '
+                'non-trivial = distinct (N,H,M,schedule) in which some client was parked on the host condition (limit reached)',
+        'samples': samples,
+        'input_distribution': {'actions': kinds, 'runs_with_feature': feats, 'random_runs': len(items),
+                               'explored_paths_replayed_in_model': len(eitems), 'exploration': explore_stats},
+        'disagreements': dis[:50],
+        'impl_violations': list(best.values()),
+    }
+
+
+def search(ctx, disagreements):
+    """called when a proof or the correspondence broke: the disagreeing schedules themselves, then 10x the random
+    volume and larger exhaustive explorations, looking for a schedule on which the PROPERTY fails on the real classes."""
+    r = common.rng('c12-search')
+    viol = []
+    jobs = [(d['case']['cfg'], d['case']['schedule']) for d in disagreements if 'case' in d][:200]
+    if jobs:
+        for cfg, res in _impl_runs(jobs):
+            viol += _viol(cfg, res)
+    pairs = random_configs(r, 2600)
+    payloads = [{'mode': 'random', 'cfg': cfg, 'seeds': seeds, 'max_len': 70, 'trace': False} for cfg, seeds in pairs]
+    groups = [g for g in (payloads[i::PAR] for i in range(PAR)) if g]
+    outs = common.run_impl_sharded('c12_impl.py', [{'mode': 'multi', 'jobs': g} for g in groups], par=PAR)
+    for g, o in zip(groups, outs):
+        for pl, res in zip(g, o['results']):
+            for run in res['results']:
+                viol += _viol(pl['cfg'], run)
+    for cfg, eo in zip(explore_configs(True), _impl_explore(explore_configs(True), 30000)):
+        for v in eo['violations']:
+            viol.append({'why': v['why'], 'case': {'cfg': cfg, 'schedule': v['schedule'], 'epilogue': False}})
+    best = {}
+    for v in viol:
+        k = classify(v)
+        if k not in best or len(v['case']['schedule']) < len(best[k]['case']['schedule']):
+            best[k] = v
+    return list(best.values())
+
+
+def replay(ctx, data):
+    case = data.get('case') or {}
+    if 'cfg' not in case:
+        return False
+    out = _impl_runs([(case['cfg'], case['schedule'])])
+    return bool(out[0][1]['violations'])
